@@ -13,7 +13,7 @@ from harness.keys import K
 from harness import h_step
 from harness.h_step import prestate
 
-CLASSES = ['key', 'swap', 'dup', 'sep', 'dropnext', 'redirect', 'empty', 'firstbucket', 'kind']
+CLASSES = ['key', 'swap', 'dup', 'sep', 'dropnext', 'redirect', 'empty', 'firstbucket', 'kind', 'emptynode']
 
 
 def interior(tpl, acc=None):
@@ -48,6 +48,10 @@ def positions(tpl, cls):
         return (len(nodes), len(lv)) if len(lv) > 1 else (0, 1)
     if cls == 'kind':
         return sum((len(n[1]) + 1) // 2 for n in nodes if n[1][0][0] == 'B' and len(n[1]) >= 3), 1
+    if cls == 'emptynode':
+        # an empty interior node inserted as an additional child (before child ci, or after the last one) of a node
+        # whose children are interior nodes, with the symbolic key x as the new separator
+        return sum((len(n[1]) + 1) // 2 + 1 for n in nodes if n[1][0][0] == 'T'), 1
     raise KeyError(cls)
 
 
@@ -203,6 +207,18 @@ def _corrupt_step(P, ks, a, p, q):
             w = cl[kind]()
             w.__setstate__(((leaf,), leaf))
             items[2 * ci] = w
+            nodes[ni].__setstate__((tuple(items), st[1]))
+        elif cls == 'emptynode':
+            tn = interior(tpl)
+            cand = [(ni, ci) for ni, n in enumerate(tn) if n[1][0][0] == 'T' for ci in range((len(n[1]) + 1) // 2 + 1)]
+            ni, ci = cand[p]
+            st = nodes[ni].__getstate__()
+            items = list(st[0])
+            nchild = (len(items) + 1) // 2
+            if ci == nchild:
+                items += [x, cl[kind]()]
+            else:
+                items[2 * ci:2 * ci] = [cl[kind](), x]
             nodes[ni].__setstate__((tuple(items), st[1]))
     finally:
         shapes.untag(tg)
